@@ -306,6 +306,15 @@ pub fn inf_bound_history(variant: usize) -> Vec<(String, String)> {
             b2[2] = infv;
             let r = res_name(solver.update_b(&b2));
             if r != "Ok" { return Some(format!("update_b with an infinite entry returned {}", r)); }
+            // the internal right-hand side is E * min(b, bound), entry by entry, in the solver's own scaling
+            let bound = clarabel::get_infinity();
+            for i in 0..b2.len() {
+                let want = b2[i].min(bound) * solver.data.equilibration.e[i];
+                let got = solver.data.b[i];
+                if (got - want).abs() > 4.0 * f64::EPSILON * want.abs() {
+                    return Some(format!("after update_b set b[2] = {:e} the internal b[{}] = {:e} is not e * min(b, bound) = {:e}", infv, i, got, want));
+                }
+            }
             solver.solve();
             let mut fresh = DefaultSolver::new(&P, &p.q, &A, &b2, &p.clarabel_cones(), p.settings());
             fresh.solve();
